@@ -12,6 +12,7 @@ import (
 func init() {
 	evals["sm4mode"] = evalSm4mode
 	evals["sm4mseq"] = evalSm4mseq
+	evals["sm4ivseq"] = evalSm4ivseq
 	gens["C11"] = genC11
 }
 
@@ -216,6 +217,19 @@ func genC11(r *rng, tier string, emit func(string)) {
 		}
 		emit("sm4mseq " + join(calls))
 	}
+	// SetIV histories: a SetIV that is refused (wrong length) leaves the IV that was in force before
+	for i := 0; i < 6+n/10; i++ {
+		key := r.block16()
+		calls := []string{fmt.Sprintf("%s,1,%s,%s,%s", modes[1+r.intn(3)], hx(key), hx(r.block16()), hx(r.bytes(r.intn(40))))}
+		for j, m := 0, 2+r.intn(4); j < m; j++ {
+			iv := r.block16()
+			if r.chance(1, 2) {
+				iv = r.bytes(r.pick([]int{0, 1, 8, 15, 17, 32}))
+			}
+			calls = append(calls, fmt.Sprintf("%s,%d,%s,%s,%s", modes[r.intn(4)], 1, hx(key), hx(iv), hx(r.bytes(r.pick([]int{0, 5, 16, 20, 32})))))
+		}
+		emit("sm4ivseq " + join(calls))
+	}
 	// every mode: an empty (and a one-block) message under a non-zero IV first, then block-aligned and other
 	// lengths in every mode, one history
 	for _, first := range modes {
@@ -243,4 +257,56 @@ func genC11(r *rng, tier string, emit func(string)) {
 		}
 		emit(fmt.Sprintf("sm4mode %s %d %s %s %s 0", modes[l%4], l%2, hx(r.bytes(l)), hx(zero16), hx(r.bytes(20))))
 	}
+}
+
+// sm4ivseq <mode,e,key,iv,in>... : a history of SetIV + helper calls in which an IV may have any length. SetIV must
+// refuse every IV that is not 16 bytes long ("rej:" in front of the result) and the helper then runs under the IV
+// that was in force before; the first IV must be valid.
+func evalSm4ivseq(args []string) string {
+	var res []string
+	for i, a := range args {
+		f := strings.Split(a, ",")
+		if len(f) != 5 {
+			return "bad-op"
+		}
+		key, ok1 := unhx(f[2])
+		iv, ok2 := unhx(f[3])
+		in, ok3 := unhx(f[4])
+		if !ok1 || !ok2 || !ok3 || len(key) != 16 || len(in) > 4000 || (i == 0 && len(iv) != 16) {
+			return "bad-op"
+		}
+		err := sm4.SetIV(append([]byte{}, iv...))
+		pre := ""
+		switch {
+		case len(iv) == 16 && err != nil:
+			return "ORACLE-FAIL:setiv-refused-16-bytes"
+		case len(iv) != 16 && err == nil:
+			return "ORACLE-FAIL:setiv-accepted-" + strconv.Itoa(len(iv)) + "-bytes"
+		case len(iv) != 16:
+			pre = "rej:"
+		}
+		enc := f[1] == "1"
+		var out []byte
+		switch f[0] {
+		case "ecb":
+			out, err = sm4.Sm4Ecb(key, in, enc)
+		case "cbc":
+			out, err = sm4.Sm4Cbc(key, in, enc)
+		case "cfb":
+			out, err = sm4.Sm4CFB(key, in, enc)
+		case "ofb":
+			out, err = sm4.Sm4OFB(key, in, enc)
+		default:
+			return "bad-op"
+		}
+		switch {
+		case err != nil:
+			res = append(res, pre+"err")
+		case out == nil:
+			res = append(res, pre+"nil")
+		default:
+			res = append(res, pre+hx(out))
+		}
+	}
+	return join(res)
 }
